@@ -219,6 +219,12 @@ pub fn storage_fault(rng: &mut Rng, t: &mut Vec<u8>, corpus: &Corpus, allow: &[&
     k
 }
 
+/// Bytes for the exhaustive short-prefix family: BOM pieces, NUL, line terminators, structural and plain characters.
+pub const SHORT_ALPHABET: [u8; 12] = [0x00, 0x0A, 0x0D, 0xFE, 0xFF, 0xEF, 0xBB, 0xBF, b'[', b'o', b'1', 0x80];
+
+/// Magic numbers of files users hand over by mistake (archives, images, audio, other text encodings).
+pub const MAGICS: &[&[u8]] = &[b"PK\x03\x04", b"PK\x05\x06", b"\x89PNG\r\n\x1a\n", b"GIF89a", b"\xFF\xD8\xFF\xE0", b"OggS", b"ID3\x03", b"RIFF", b"\x1f\x8b\x08", b"7z\xBC\xAF\x27\x1C", b"%PDF-", b"\xFF\xFE\x00\x00", b"\x00\x00\xFE\xFF", b"+/v8", b"\x0E\xFE\xFF", b"<?xml", b"{\"", b"#!"];
+
 pub const STORAGE_ALL: &[&str] = &["S1-truncate", "S2-bitflip", "S2-overwrite", "S2-insert", "S3-torn", "S4-lostblock", "S6-invalid"];
 
 // ------------------------------------------------------------------------------------------ record faults
